@@ -24,7 +24,7 @@ NAME_POOLS = {
               'contig', 'position', 'includes_start', 'a' * 200],
     'keyword': ['int32', 'int', 'float', 'float64', 'str', 'struct', 'tuple', 'array', 'set', 'dict', 'locus', 'interval', 'ndarray',
                 'call', 'bool', 'void', 'tint32', 'tstruct', 'True', 'False', 'None', 'nan', 'inf', 'neginf', 'Struct', 'Array', 'Int32',
-                'Locus', 'class', 'def', '_fields', 'items', 'keys', 'annotate', 'nat', 'rng_state', 'stream'],
+                'Locus', 'class', 'def', 'self', '_fields', 'items', 'keys', 'annotate', 'nat', 'rng_state', 'stream'],
     'empty': [''],
     'space': [' ', 'a b', ' a', 'a ', '  ', '\t', '\n', 'a\nb', '\r', '\r\n', '\x0b', '\x0c', '\x00', 'a\x00b', '\x1f', '\x7f', '\x85',
               '\xa0', '\u2028', '\u3000', 'field with spaces'],
@@ -313,8 +313,10 @@ def gen_call(rng):
     return Call([j, k], phased=phased)
 
 
-def gen_value(rng, t, hashable=False, missing_ok=True, stats=None, p_missing=0.12):
-    """Random Python value of Hail type `t` (``None`` = missing where the API allows it)."""
+def gen_value(rng, t, hashable=False, missing_ok=True, stats=None, p_missing=0.12, p_dict_missing=None):
+    """Random Python value of Hail type `t` (``None`` = missing where the API allows it).
+
+    `p_dict_missing`: probability of a missing dict value (a third of it for a missing dict key); default `p_missing`."""
     import numpy as np
 
     import hail.expr.types as T
@@ -328,7 +330,7 @@ def gen_value(rng, t, hashable=False, missing_ok=True, stats=None, p_missing=0.1
             stats[k] = stats.get(k, 0) + 1
 
     def sub(tt, **kw):
-        return gen_value(rng, tt, stats=stats, **{'hashable': hashable, 'p_missing': p_missing, **kw})
+        return gen_value(rng, tt, stats=stats, **{'hashable': hashable, 'p_missing': p_missing, 'p_dict_missing': p_dict_missing, **kw})
 
     if missing_ok and rng.random() < p_missing:
         note('missing')
@@ -386,8 +388,9 @@ def gen_value(rng, t, hashable=False, missing_ok=True, stats=None, p_missing=0.1
         n = rng.choice(_LEN)
         d = {}
         for _ in range(n):
-            k = None if rng.random() < p_missing / 3 else sub(t.key_type, hashable=True, missing_ok=False)
-            v = sub(t.value_type)
+            pdm = p_missing if p_dict_missing is None else p_dict_missing
+            k = None if rng.random() < pdm / 3 else sub(t.key_type, hashable=True, missing_ok=False)
+            v = None if rng.random() < pdm else sub(t.value_type, missing_ok=False)
             if k is None:
                 note('dict_missing_key')
             if v is None:
@@ -538,3 +541,47 @@ def describe(t, v, depth=0):
         return {'ndarray': v.tolist(), 'shape': list(v.shape), 'c_contiguous': bool(v.flags['C_CONTIGUOUS']), 'f_contiguous': bool(v.flags['F_CONTIGUOUS']),
                 'strides': list(v.strides), 'dtype': str(v.dtype)}
     return repr(v)[:1500]
+
+
+# ------------------------------------------------------------------------------------------------
+# failure localisation (for mechanism keys): smallest sub-value that still fails
+# ------------------------------------------------------------------------------------------------
+def children(t, v):
+    """(child type, child value, path element) of the non-missing children of a non-missing value"""
+    import hail.expr.types as T
+
+    if isinstance(t, (T.tarray, T.tset)):
+        for i, x in enumerate(v):
+            yield t.element_type, x, i
+    elif isinstance(t, T.tdict):
+        for i, (k, x) in enumerate(v.items()):
+            yield t.key_type, k, f'key{i}'
+            yield t.value_type, x, f'value{i}'
+    elif isinstance(t, T.tstruct):
+        for f, tt in t.items():
+            yield tt, v[f], f
+    elif isinstance(t, T.ttuple):
+        for i, tt in enumerate(t.types):
+            yield tt, v[i], i
+    elif isinstance(t, T.tinterval):
+        yield t.point_type, v.start, 'start'
+        yield t.point_type, v.end, 'end'
+
+
+def localise(t, v, ok, path=()):
+    """Descend into the first failing child until no child fails: -> (type, value, path) of the smallest failing node.
+    `ok(t, v)` must be total (returns False when the round trip raises)."""
+    for ct, cv, pe in children(t, v):
+        if cv is not None and not ok(ct, cv):
+            return localise(ct, cv, ok, path + (pe,))
+    return t, v, path
+
+
+def kind_of(t):
+    import hail.expr.types as T
+
+    for cls, name in ((T.tarray, 'array'), (T.tset, 'set'), (T.tdict, 'dict'), (T.tstruct, 'struct'), (T.ttuple, 'tuple'), (T.tinterval, 'interval'),
+                      (T.tndarray, 'ndarray'), (T.tlocus, 'locus')):
+        if isinstance(t, cls):
+            return name
+    return str(t)
